@@ -12,6 +12,7 @@
  */
 
 #include "cppStructType.h"
+#include "cppConstType.h"
 #include "cppTypedefType.h"
 #include "cppReferenceType.h"
 #include "cppScope.h"
@@ -591,6 +592,13 @@ is_default_constructible(CPPVisibility min_vis) const {
     if (instance->_initializer != nullptr) {
       // It has a default value.
       continue;
+    }
+
+    CPPConstType *const_type = instance->_type->as_const_type();
+    if (const_type != nullptr &&
+        const_type->_wrapped_around->as_struct_type() == nullptr) {
+      // A const member of non-class type without an initializer.
+      return false;
     }
 
     if (!instance->_type->is_default_constructible()) {
